@@ -815,9 +815,12 @@ impl<'ast, 'res> Resolver<'ast, 'res> {
                 let r = self.infer_expr_type(rhs);
                 match op {
                     BinaryOp::Add => match (l, r) {
-                        (Some(ValueType::String | ValueType::Dynamic), ..)
-                        | (.., Some(ValueType::String | ValueType::Dynamic))
-                        | (Some(ValueType::Number), Some(ValueType::Number)) => {}
+                        (
+                            Some(ValueType::Number | ValueType::String | ValueType::Dynamic),
+                            Some(ValueType::Number | ValueType::String | ValueType::Dynamic),
+                        )
+                        | (None, ..)
+                        | (.., None) => {}
                         _ => {
                             self.emit_error(
                                 *span,
@@ -869,9 +872,12 @@ impl<'ast, 'res> Resolver<'ast, 'res> {
                         ),
                     },
                     BinaryOp::And | BinaryOp::Or => match (l, r) {
-                        (Some(ValueType::Bool), Some(ValueType::Bool))
-                        | (Some(ValueType::Null | ValueType::Dynamic), ..)
-                        | (.., Some(ValueType::Null | ValueType::Dynamic)) => {}
+                        (
+                            Some(ValueType::Bool | ValueType::Null | ValueType::Dynamic),
+                            Some(ValueType::Bool | ValueType::Null | ValueType::Dynamic),
+                        )
+                        | (None, ..)
+                        | (.., None) => {}
                         _ => {
                             self.emit_error(
                                 *span,
